@@ -5,6 +5,7 @@
 #[macro_use]
 mod engine;
 mod doubles;
+mod parsers;
 mod props;
 mod util;
 
